@@ -95,6 +95,9 @@ struct Response {
 struct Success {
     static std::optional<Success> fromDom(const QDomElement &);
     void toXml(QXmlStreamWriter *writer) const;
+
+    // additional data with success (RFC 6120, section 6.4.6), e.g. the final message of the server
+    QByteArray additionalData;
 };
 
 }  // namespace Sasl
@@ -381,6 +384,9 @@ public:
     virtual void setCredentials(const QXmpp::Private::Credentials &) = 0;
     virtual QXmpp::Private::SaslMechanism mechanism() const = 0;
     virtual std::optional<QByteArray> respond(const QByteArray &challenge) = 0;
+    // Whether the exchange is complete from the client's point of view. Mechanisms with mutual
+    // authentication are not finished before the server's final message has been verified.
+    virtual bool isFinished() const { return true; }
 
     static bool isMechanismAvailable(QXmpp::Private::SaslMechanism, const QXmpp::Private::Credentials &);
     static std::unique_ptr<QXmppSaslClient> create(const QString &mechanism, QObject *parent = nullptr);
@@ -522,6 +528,7 @@ public:
     void setCredentials(const QXmpp::Private::Credentials &) override;
     QXmpp::Private::SaslMechanism mechanism() const override { return { m_mechanism }; }
     std::optional<QByteArray> respond(const QByteArray &challenge) override;
+    bool isFinished() const override { return m_step == 3; }
 
 private:
     QXmpp::Private::SaslScramMechanism m_mechanism;
